@@ -12,6 +12,8 @@ cp $OUT/notes.md $DEST/agent_notes.md 2>/dev/null
 LOG=$DEST/confirm.log
 : > $LOG
 cd $WT || exit 2
+# the agent's saved patch is the source of truth; make the worktree carry exactly that change
+git checkout -q -- . && git apply $OUT/patch.diff || { echo "agent patch does not apply" | tee -a $LOG; exit 2; }
 ( git diff > $DEST/patch.diff )
 echo "== pytest with change" >> $LOG
 /venv/bin/python -m pytest -q -p no:cacheprovider --timeout=900 --continue-on-collection-errors -q -rf 2>&1 | grep -E "^(FAILED|ERROR)" > $DEST/.failed.txt
@@ -21,11 +23,12 @@ echo "unexpected failures: $NF" >> $LOG
 echo "== demo with change" >> $LOG
 timeout 600 /venv/bin/python $DEST/demo.py > $DEST/.demo_with.txt 2>&1; RC1=$?
 tail -5 $DEST/.demo_with.txt >> $LOG; echo "exit=$RC1" >> $LOG
-git stash -q
+# (git stash is shared between worktrees of one repository: revert with the patch itself)
+git apply -R $DEST/patch.diff
 echo "== demo without change" >> $LOG
 timeout 600 /venv/bin/python $DEST/demo.py > $DEST/.demo_without.txt 2>&1; RC0=$?
 tail -3 $DEST/.demo_without.txt >> $LOG; echo "exit=$RC0" >> $LOG
-git stash pop -q
+git apply $DEST/patch.diff
 rm -f $DEST/.failed.txt $DEST/.demo_with.txt $DEST/.demo_without.txt
 echo "SUMMARY name=$NAME prop=$PROP unexpected_test_failures=$NF demo_with=$RC1 demo_without=$RC0" | tee -a $LOG
 if [ "$NF" != "0" ] || [ "$RC1" = "0" ] || [ "$RC0" != "0" ]; then echo "NOT CONFIRMED" | tee -a $LOG; fi
